@@ -95,6 +95,8 @@ class Step:
             return "locks"
         if self.ev.startswith("S "):
             return "stress"
+        if self.ev.startswith("B "):
+            return "b"
         return self.toks[0] if self.toks else "?"
 
 
@@ -107,6 +109,7 @@ class Case:
         self.init_model = None
         self.steps = []
         self.notes = []   # '# panic ...', '# hang ...'
+        self.layer_b = False
         self.hang = False
 
     def first_divergence(self):
@@ -140,11 +143,12 @@ def load_cases(in_path, impl_path, model_path):
             cases.append(cur)
         elif cur is None:
             continue
-        elif il.startswith("C "):
+        elif il.startswith("C ") or il.startswith("BC "):
             cur.cfg_line = il
             cur.cfg = parse_cfg(il)
+            cur.layer_b = il.startswith("BC ")
             cur.init_impl, cur.init_model = ml, dl
-        elif il.startswith("E ") or il.startswith("A ") or il.startswith("P ") or il.startswith("L ") or il.startswith("S "):
+        elif il.startswith("E ") or il.startswith("A ") or il.startswith("P ") or il.startswith("L ") or il.startswith("S ") or il.startswith("B "):
             cur.steps.append(Step(il, ml, dl, len(cur.steps)))
         elif il.startswith("#"):
             cur.notes.append(il)
